@@ -25,7 +25,7 @@ func init() {
 			"it does not decide what the sequential code computes (C09) nor behaviour of a removal callback that re-enters the cache.",
 		Assume:  []string{"sync.Mutex/RWMutex semantics", "removal callback does not re-enter the cache", "SetDelCallBackFn-style pure setters are configuration-time (called before concurrent use)"},
 		Trusted: []string{"go/types", "go/ssa (x/tools v0.29.0)", "container/list mutator table"},
-		Run:     func(c *Ctx) { runLock(c, ruleLock) },
+		Run:     func(c *Ctx) { runLock(c, ruleLock); base(c, "STATE") },
 	})
 }
 
@@ -133,6 +133,44 @@ func runLock(c *Ctx, rule string) {
 		if recvNamed(fn) == named || (fn.Parent() != nil && recvNamed(fn.Parent()) == named) {
 			la.methods = append(la.methods, fn)
 		}
+	}
+	// the mutex must never be copied: every method has a pointer receiver and no instruction
+	// loads or stores a whole value of the cache type (a copy carries its own copy of the lock:
+	// locking it excludes nobody, and a copy taken while a writer waits can block forever)
+	{
+		var bad []string
+		n := 0
+		for _, fn := range p.Funcs {
+			if fn.Pkg == nil || !strings.HasPrefix(fn.Pkg.Pkg.Path(), ModPath) {
+				continue
+			}
+			if recv := fn.Signature.Recv(); recv != nil && fn.Parent() == nil {
+				if rn := namedOf(recv.Type()); rn == named {
+					n++
+					if _, isPtr := recv.Type().(*types.Pointer); !isPtr {
+						bad = append(bad, fnName(fn)+" has a value receiver: every call works on a copy of the cache, mutex included")
+					}
+				}
+			}
+			for _, b := range fn.Blocks {
+				for _, ins := range b.Instrs {
+					v, ok := ins.(ssa.Value)
+					if !ok {
+						continue
+					}
+					if _, isAlloc := ins.(*ssa.Alloc); isAlloc {
+						continue
+					}
+					if namedOf(v.Type()) == named {
+						if _, isPtr := v.Type().(*types.Pointer); !isPtr {
+							bad = append(bad, fmt.Sprintf("%s copies a whole cache value (%T at %s)", fnName(fn), ins, p.Pos(ins.Pos())))
+						}
+					}
+				}
+			}
+		}
+		c.Sites += n
+		c.Check(len(bad) == 0 && n > 0, rule, named.Obj().Name(), "no-lock-copy", token.NoPos, fmt.Sprintf("%d methods, all on pointer receivers; no struct copy", n), uniqJoin(bad, 3))
 	}
 	// field mutability + outside access
 	la.scanStores()
